@@ -352,6 +352,7 @@ PROPS = {
     },
     "C16": {
         "sub": "c16",
+        "lean_modules": ["DatamonVerif.Props.C16", "DatamonVerif.Props.C16Put"],
         "trivial": r"^keys$|^walk p= d= n=[123]$",
         "level_text": "Proof: C16_store_refines_map (put/get/has/delete of the store contract = the map specification, all histories), "
                       "C16_localfs_refines / C16_localfs_refines_map (the local file system model, with its directories, MkdirAll, O_EXCL and Remove, "
